@@ -104,7 +104,8 @@ def run(ctx):
         kinds[clause + ":" + kind] = kinds.get(clause + ":" + kind, 0) + 1
         ctx.violation("judge", "C11 clause (%s) %s — %s" % (clause, CLAUSES.get(clause, ""), kv["judge"]),
                       {"case": case, "clause": clause, "spec": specs.get(case, ""), "result": kv},
-                      fingerprint={"clause": clause, "kind": kind, "wild": kv.get("wild", "false"), "lang": lang})
+                      fingerprint={"clause": clause, "kind": kind, "wild": kv.get("wild", "false"), "lang": lang,
+                                   "qfree": kv.get("qfree", "-")})
     ctx.oblige("corr:evalImpl|evalFixed=satisfies_text_predicates", corr_bad == 0, "%d disagreements" % corr_bad)
     tot_pass = sum(v["passed"] for v in per_clause.values())
     ctx.coverage.update({
